@@ -26,6 +26,8 @@ Bad ==
   \cup b((Tr.mode = "unsup" /\ EvSet # Tr.lo..Tr.hi) => ScoreOf(Ks[Len(Ks)]) = 0, "stopped_evaluating_without_a_zero_cut")
   \cup b(Tr.best_k \in EvSet /\ Tr.best_k = KS!BestOf(EvSet, ScoreOf), "best_k_is_not_smallest_k_with_best_criterion")
   \cup b(Tr.final_arcs_k = Tr.best_k /\ Tr.final_pdf_k = Tr.best_k, "final_model_not_built_with_best_k")
+  \* ... and "built with that k" means: the density model (constant, range, densities) of a graph built from scratch with that k
+  \cup b(Tr.final_pdf_same # 0, "final_density_model_is_not_that_of_a_graph_built_with_best_k")
 ASSUME TLCSet(1, {}) /\ TLCSet(3, {})
 Add(r, x) == TLCSet(r, TLCGet(r) \cup {x})
 Judge == /\ LET B == Bad IN B = {} \/ Add(1, <<tid, B>>)
